@@ -13,12 +13,25 @@ EXTENDS Operators
 \* result with log lines: [ok, v, log]
 R(ok, v, lg) == [ok |-> ok, v |-> v, log |-> lg]
 Fail(lg) == R(FALSE, Null, lg)
+\* a failure of a named variant of the error enumeration; a failure passed on keeps its variant
+FailK(kind, lg) == R(FALSE, Str(kind), lg)
+Pass(e, lg) == R(FALSE, e.v, lg)
 
 \* the eager skeleton: arity of every operation reachable through eager/data operands
 RECURSIVE ParseOK(_)
 ParseOK(r) == IF ~IsOperation(r) THEN TRUE
               ELSE /\ HeadOK(r)
                    /\ (KeyOf(r) \in LazyOps \/ \A j \in DOMAIN Operands(r) : ParseOK(Operands(r)[j]))
+
+\* the first head error in the order the parser meets them (pre-order, operands left to right), or NoErr
+RECURSIVE ParseErr(_), ParseErrArgs(_, _)
+ParseErr(r) == IF ~IsOperation(r) THEN NoErr
+               ELSE IF HeadErr(r) # NoErr THEN HeadErr(r)
+               ELSE IF KeyOf(r) \in LazyOps THEN NoErr
+               ELSE ParseErrArgs(Operands(r), 1)
+ParseErrArgs(as, j) == IF j > Len(as) THEN NoErr
+                       ELSE IF ParseErr(as[j]) # NoErr THEN ParseErr(as[j])
+                       ELSE ParseErrArgs(as, j + 1)
 
 \* the elements of a collection value for all/some/none, or "bad"
 CharsOf(s) == [j \in DOMAIN s.v |-> Str(<<s.v[j]>>)]
@@ -27,14 +40,14 @@ RECURSIVE Ev(_, _), EvArgs(_, _, _, _, _, _), EvIf(_, _, _, _), EvAndOr(_, _, _,
           EvEach(_, _, _, _, _, _), EvReduce(_, _, _, _, _), EvQuant(_, _, _, _, _, _, _)
 
 \* a lazily reached operand: its skeleton is checked first (no log lines on failure)
-EvL(r, d) == IF ParseOK(r) THEN Ev(r, d) ELSE Fail(<<>>)
+EvL(r, d) == IF ParseOK(r) THEN Ev(r, d) ELSE FailK(ParseErr(r), <<>>)
 
 \* apply(rule, data)
 Eval(r, d) == EvL(r, d)
 
 Ev(r, d) ==
   IF ~IsOperation(r) THEN R(TRUE, r, <<>>)
-  ELSE IF ~HeadOK(r) THEN Fail(<<>>)
+  ELSE IF ~HeadOK(r) THEN FailK(HeadErr(r), <<>>)
   ELSE LET k == KeyOf(r)
            as == Operands(r)
        IN CASE k \in EagerOps \cup DataOps -> EvArgs(k, as, 1, <<>>, d, <<>>)
@@ -43,28 +56,28 @@ Ev(r, d) ==
             [] k \in {K_map, K_filter} ->
                  LET c == EvL(as[1], d)
                  IN IF ~c.ok THEN c
-                    ELSE IF c.v.t \notin {"a", "z"} THEN Fail(c.log)
-                    ELSE IF ~ParseOK(as[2]) THEN Fail(c.log)
+                    ELSE IF c.v.t \notin {"a", "z"} THEN FailK(EK_InvalidArgument, c.log)
+                    ELSE IF ~ParseOK(as[2]) THEN FailK(ParseErr(as[2]), c.log)
                     ELSE EvEach(k, IF c.v.t = "z" THEN <<>> ELSE c.v.v, as[2], 1, <<>>, c.log)
             [] k = K_reduce ->
                  LET c == EvL(as[1], d)
                  IN IF ~c.ok THEN c
                     ELSE LET i0 == EvL(as[3], d)
-                         IN IF ~i0.ok THEN Fail(c.log \o i0.log)
-                            ELSE IF c.v.t \notin {"a", "z"} THEN Fail(c.log \o i0.log)
-                            ELSE IF ~ParseOK(as[2]) THEN Fail(c.log \o i0.log)
+                         IN IF ~i0.ok THEN Pass(i0, c.log \o i0.log)
+                            ELSE IF c.v.t \notin {"a", "z"} THEN FailK(EK_InvalidArgument, c.log \o i0.log)
+                            ELSE IF ~ParseOK(as[2]) THEN FailK(ParseErr(as[2]), c.log \o i0.log)
                             ELSE EvReduce(IF c.v.t = "z" THEN <<>> ELSE c.v.v, as[2], 1, i0.v, c.log \o i0.log)
             [] k \in {K_all, K_some, K_none} ->
                  LET computed == as[1].t = "o"
                      c == IF computed THEN EvL(as[1], d) ELSE R(TRUE, as[1], <<>>)
                  IN IF ~c.ok THEN c
-                    ELSE IF c.v.t \notin {"a", "s", "z"} THEN Fail(c.log)
+                    ELSE IF c.v.t \notin {"a", "s", "z"} THEN FailK(EK_InvalidArgument, c.log)
                     ELSE LET el == CASE c.v.t = "a" -> c.v.v
                                      [] c.v.t = "s" -> CharsOf(c.v)
                                      [] OTHER -> <<>>
                              lit == ~computed /\ c.v.t = "a"    \* literal array: elements are rule text
                          IN IF el = <<>> THEN R(TRUE, Bool(k = K_none), c.log)
-                            ELSE IF ~ParseOK(as[2]) THEN Fail(c.log)
+                            ELSE IF ~ParseOK(as[2]) THEN FailK(ParseErr(as[2]), c.log)
                             ELSE EvQuant(k, lit, el, as[2], 1, d, c.log)
 
 \* eager / data operator: operands left to right (the order among eager operands is not pinned
@@ -72,16 +85,16 @@ Ev(r, d) ==
 EvArgs(k, as, j, vs, d, lg) ==
   IF j > Len(as)
   THEN LET r == IF k \in DataOps THEN ApplyData(k, d, vs) ELSE ApplyEager(k, vs)
-       IN IF r.ok THEN R(TRUE, r.v, IF k = K_log THEN Append(lg, vs[1]) ELSE lg) ELSE Fail(lg)
+       IN IF r.ok THEN R(TRUE, r.v, IF k = K_log THEN Append(lg, vs[1]) ELSE lg) ELSE Pass(r, lg)
   ELSE LET a == Ev(as[j], d)
-       IN IF ~a.ok THEN Fail(lg \o a.log)
+       IN IF ~a.ok THEN Pass(a, lg \o a.log)
           ELSE EvArgs(k, as, j + 1, Append(vs, a.v), d, lg \o a.log)
 
 \* if / ?: : conditions left to right; only the branch paired with the first truthy condition
 EvIf(as, j, d, lg) ==
   IF j > Len(as) THEN R(TRUE, Null, lg)
   ELSE LET c == EvL(as[j], d)
-       IN IF ~c.ok THEN Fail(lg \o c.log)
+       IN IF ~c.ok THEN Pass(c, lg \o c.log)
           ELSE IF j = Len(as) THEN R(TRUE, c.v, lg \o c.log)        \* else-operand (or the single operand)
           ELSE IF Truthy(c.v)
                THEN LET b == EvL(as[j + 1], d) IN R(b.ok, b.v, lg \o c.log \o b.log)
@@ -91,7 +104,7 @@ EvIf(as, j, d, lg) ==
 EvAndOr(k, as, j, d, lg, last) ==
   IF j > Len(as) THEN R(TRUE, last, lg)
   ELSE LET c == EvL(as[j], d)
-       IN IF ~c.ok THEN Fail(lg \o c.log)
+       IN IF ~c.ok THEN Pass(c, lg \o c.log)
           ELSE IF (k = K_and /\ ~Truthy(c.v)) \/ (k = K_or /\ Truthy(c.v)) THEN R(TRUE, c.v, lg \o c.log)
           ELSE EvAndOr(k, as, j + 1, d, lg \o c.log, c.v)
 
@@ -99,7 +112,7 @@ EvAndOr(k, as, j, d, lg, last) ==
 EvEach(k, el, e, j, acc, lg) ==
   IF j > Len(el) THEN R(TRUE, Arr(acc), lg)
   ELSE LET x == Ev(e, el[j])
-       IN IF ~x.ok THEN Fail(lg \o x.log)
+       IN IF ~x.ok THEN Pass(x, lg \o x.log)
           ELSE EvEach(k, el, e, j + 1,
                       IF k = K_map THEN Append(acc, x.v)
                       ELSE IF Truthy(x.v) THEN Append(acc, el[j]) ELSE acc,
@@ -109,16 +122,16 @@ EvEach(k, el, e, j, acc, lg) ==
 EvReduce(el, e, j, acc, lg) ==
   IF j > Len(el) THEN R(TRUE, acc, lg)
   ELSE LET x == Ev(e, ReduceCtx(el[j], acc))
-       IN IF ~x.ok THEN Fail(lg \o x.log) ELSE EvReduce(el, e, j + 1, x.v, lg \o x.log)
+       IN IF ~x.ok THEN Pass(x, lg \o x.log) ELSE EvReduce(el, e, j + 1, x.v, lg \o x.log)
 
 \* all / some / none over a non-empty collection, stopping at the first deciding element;
 \* elements of a LITERAL array are rule text evaluated against the outer data, all others are data
 EvQuant(k, lit, el, p, j, d, lg) ==
   IF j > Len(el) THEN R(TRUE, Bool(k = K_all \/ k = K_none), lg)
   ELSE LET it == IF lit THEN EvL(el[j], d) ELSE R(TRUE, el[j], <<>>)
-       IN IF ~it.ok THEN Fail(lg \o it.log)
+       IN IF ~it.ok THEN Pass(it, lg \o it.log)
           ELSE LET x == Ev(p, it.v)
-               IN IF ~x.ok THEN Fail(lg \o it.log \o x.log)
+               IN IF ~x.ok THEN Pass(x, lg \o it.log \o x.log)
                   ELSE IF k = K_all /\ ~Truthy(x.v) THEN R(TRUE, False, lg \o it.log \o x.log)
                   ELSE IF k = K_some /\ Truthy(x.v) THEN R(TRUE, True, lg \o it.log \o x.log)
                   ELSE IF k = K_none /\ Truthy(x.v) THEN R(TRUE, False, lg \o it.log \o x.log)
